@@ -112,6 +112,33 @@ def systematic():
         qs.append(grp(a, {"t": "subselect", "q": {"form": "select", "proj": ["z"], "distinct": True, "where": grp(b)}}))
         for f in FILTERS:
             qs.append(grp(a, {"t": "optional", "g": grp(b, {"t": "filter", "e": f})}))
+    # duplicates matter: sources of repeated solutions followed by every operator
+    K_POOL = [bgp((V("x"), I("q"), V("k"))), bgp((V("k"), I("p"), V("w"))), bgp((V("x"), I("p"), V("k")), (V("k"), I("q"), V("w")))]
+    for a in A_POOL[:3]:
+        dups = [{"t": "union", "gs": [grp(a), grp(a)]}, {"t": "union", "gs": [grp(a), grp(bgp((V("x"), I("q"), V("y"))))]},
+                {"t": "values", "vars": ["y"], "rows": [[N(1)], [N(1)], [N(2)], [I("n2")], [I("n2")]]}]
+        for d in dups:
+            for b in B_POOL[:4]:
+                qs.append(grp(d, {"t": "minus", "g": grp(b)}))
+                qs.append(grp(d, {"t": "optional", "g": grp(b)}))
+                qs.append(grp(d, b))
+                qs.append(grp(b, {"t": "minus", "g": grp(d)}))
+            qs.append(grp(d, {"t": "filter", "e": FILTERS[0]}))
+            qs.append(grp(d, a, {"t": "minus", "g": grp(bgp((V("x"), I("q"), V("zz"))))}))
+        # BIND / VALUES introduce a variable that later elements use
+        binds = [{"t": "bind", "e": ev("y"), "v": "k"}, {"t": "bind", "e": {"e": "+", "a": ev("y"), "b": ec(N(1))}, "v": "k"},
+                 {"t": "bind", "e": {"e": "if", "a": {"e": "isiri", "a": ev("y")}, "b": ev("y"), "c": ev("x")}, "v": "k"},
+                 {"t": "values", "vars": ["k"], "rows": [[N(1)], [I("n2")], [{"k": "undef"}]]}]
+        for bd in binds:
+            for kp in K_POOL:
+                qs.append(grp(a, bd, {"t": "optional", "g": grp(kp)}))
+                qs.append(grp(a, bd, {"t": "minus", "g": grp(kp)}))
+                qs.append(grp(a, bd, kp))
+                qs.append(grp(a, bd, {"t": "union", "gs": [grp(kp), grp(bgp((V("x"), I("q"), V("w"))))]}))
+                qs.append(grp(a, bd, {"t": "filter", "e": {"e": "exists", "g": grp(kp)}}))
+                qs.append(grp(a, {"t": "optional", "g": grp(kp)}, {"t": "bind", "e": {"e": "coalesce", "args": [ev("k"), ec(N(0))]}, "v": "k2"}))
+            qs.append(grp(a, bd, {"t": "filter", "e": {"e": "=", "a": ev("k"), "b": ec(N(2))}}))
+            qs.append(grp(a, bd, {"t": "optional", "g": grp(bgp((V("x"), I("q"), V("w")), ), {"t": "filter", "e": {"e": "=", "a": ev("w"), "b": ev("k")}})}))
     for a in A_POOL + B_POOL:
         for f in FILTERS:
             qs.append(grp(a, {"t": "filter", "e": f}))
